@@ -116,6 +116,18 @@ theorem map_bindList (f : β → γ) (k : α → Gen β) (l : List α) :
   | nil => rfl
   | cons x xs ih => simp [map_append, ih]
 
+theorem bindList_congr_mem {f g : α → Gen β} (l : List α) (h : ∀ x ∈ l, f x = g x) :
+    bindList f l = bindList g l := by
+  induction l with
+  | nil => rfl
+  | cons x xs ih =>
+    simp only [bindList_cons]
+    rw [h x (by simp), ih (fun y hy => h y (by simp [hy]))]
+
+theorem bind_congr_mem {f g : α → Gen β} (a : Gen α) (h : ∀ x ∈ a.1, f x = g x) : bind a f = bind a g := by
+  simp only [bind_def]
+  rw [bindList_congr_mem a.1 h]
+
 theorem bindList_map (f : α → β) (k : β → Gen γ) (l : List α) :
     bindList k (l.map f) = bindList (fun x => k (f x)) l := by
   induction l with
